@@ -29,7 +29,7 @@ CHECKS = [
           "loop-step indices on a deterministic loop, so a failing interleaving replays exactly. Statistical over histories; the thorough "
           "tier additionally enumerates every cancellation step of every terminal call over a pool of pre-states (cancel-* sub-checks; sampled in "
           "quick). 'launch'/'collect' rounds keep several consume calls of different clients in flight at once under unequal simulated "
-          "latencies; consumers are paused and resumed (or finished while paused) in between. long-lived-*: a consumer works through 60-1040 messages beside a "
+          "latencies; consumers are paused and resumed (or finished while paused) in between; a connected broker is connected again (idempotent). long-lived-*: a consumer works through 60-1040 messages beside a "
           "message it once took and returned and that another consumer of the same process now holds, then finishes. A directed block puts "
           "several delayed messages on one due instant and consumes them one by one.",
   "note": _MODEL + _SRV + " One open known finding (D9: RabbitMQ requeue is ack+publish, not atomic) is excluded by signature."},
@@ -39,7 +39,7 @@ CHECKS = [
           "never-after-eager marker, final place, worker survival. Outcomes include exceptions whose __str__ raises, return values that cannot "
           "be serialised, and a worker connection without a results bucket broker, and eager responses given by a dependency. sync-burst: 33-70 sync "
           "actors started at once meet at a barrier (each delivery is judged on its own however many threads are busy). The final place of a "
-          "finished chain is judged even when the scenario ran into the horizon.",
+          "finished chain is judged even when the scenario ran into the horizon; a worker that holds a message and does nothing for 8 s has left the delivery without its terminal action.",
   "note": _MODEL + _SRV},
  {"property_id": "C03", "level": "fault_enumeration", "design_ref": "DESIGN.md §4 C03",
   "technique": "step-indexed fault injection on a deterministic event loop (stop signal / process death at loop step k; Hypothesis-drawn k in quick, every k enumerated in thorough) with a replay-of-completed-calls oracle, 3 brokers",
@@ -51,7 +51,7 @@ CHECKS = [
           "broker events of a dry run; kill-* mixes execution timeouts (seconds to days) and runs maintenance at every deadline; limit-multi generates workloads "
           "over 2-3 queues with a message limit, microsecond-grid durations and an optional stop signal, so a message of another queue "
           "is handed back exactly while the last counted execution ends. A reject that follows an interrupted ack is judged per alternative "
-          "(ack took effect / did not).",
+          "(ack took effect / did not). Pool scenarios include an eager first delivery followed by a 15 s second delivery of the same message.",
   "note": _MODEL + _SRV + " asyncio has no preemption inside a loop step, so loop steps are the complete set of interleaving points for one process."},
  {"property_id": "C04", "level": "exploration", "design_ref": "DESIGN.md §4 C04",
   "technique": "scenario property-based testing of retry chains against a retry-ladder model plus parameter-level checks of _prepare_retry",
@@ -64,7 +64,7 @@ CHECKS = [
           "(next_execution_time, delay_until, Job.deferred_until), arrival vs consumer-start interleavings; a consumer consumes continuously "
           "for a 40 s virtual horizon. Oracles: never handed to a NORMAL consumer before T-1ms; delivered within a per-broker bound after T; "
           "far-future messages stay delayed; visible through the DELAYED category only, reject keeps them delayed. 'never forgotten' is decided "
-          "as 'within the stated bound'. Also: Job.deferred_by forms, a topic-filtered consumer beside a run of foreign delayed messages, non-UTC host zones (fixed and on daylight-saving time).",
+          "as 'within the stated bound'. Also: Job.deferred_by forms, a topic-filtered consumer beside a run of foreign delayed messages, non-UTC host zones (fixed and on daylight-saving time), messages carrying both a period and a retry time.",
   "note": _MODEL + _SRV + " Open known findings D19a/D19b (RabbitMQ head-of-line blocking of per-message TTL) are excluded by signature."},
  {"property_id": "C06", "level": "exploration", "design_ref": "DESIGN.md §4 C06",
   "technique": "property-based testing of reschedule arithmetic over generated iteration programmes (pinned clock) plus worker-level recurring scenarios on 3 brokers",
@@ -72,7 +72,8 @@ CHECKS = [
           "latency/duration profiles; oracle = one successor, counter reset, TTL restarted, now<S_next<=now+p, S_next>=S_prev+p. "
           "amqp-long-period runs periods of 1-30 days through the RabbitMQ model. fleet-* serve 1-3 recurring jobs on one time base with "
           "2-3 workers of their own connections that are stopped and replaced while the others run: every slot runs exactly once (twins of one "
-          "job, a timestamp equal to now, cadence grids, short ttl, non-UTC host zones included).",
+          "job, a timestamp equal to now, cadence grids, short ttl, non-UTC host zones included). A reader of the DELAYED category may take the "
+          "pending iteration before it is due and hand it back: its slot stays its slot.",
   "note": _MODEL + _SRV + " cron schedules are not exercised (croniter not installed)."},
  {"property_id": "C07", "level": "exploration", "design_ref": "DESIGN.md §4 C07",
   "technique": "round-trip and injectivity property-based testing of codecs and key encodings, plus end-to-end producer->broker->consumer->actor identity checks on 3 brokers",
@@ -81,27 +82,29 @@ CHECKS = [
           "tz-aware timestamps); Redis/AMQP name encodings round-trip and are injective over near-miss key pairs; end to end the consumed "
           "key/priority/payload/parameters equal what Job.enqueue() returned and the configured settings, and the actor's arguments equal an "
           "independent JSON normalisation (inline and bucket transport); a requeue with a new payload, a second job re-using the args_id "
-          "over another connection, and a worker that is already consuming while the producer's bucket store is slow.",
+          "over another connection, a worker that is already consuming while the producer's bucket store is slow, and a worker whose first look-up of the "
+          "argument bucket fails (the actor is called with the job's arguments or not at all).",
   "note": _MODEL + _SRV},
  {"property_id": "C08", "level": "exploration", "design_ref": "DESIGN.md §4 C08",
   "technique": "property-based testing over generated actor signatures (exec-ed source, real CPython binding) and payloads against an independent binder; converter differential; output round trip",
   "text": "Signatures x payload shapes (empty, exact, missing, extras, permuted) are bound by an independent reference binder and compared with "
           "what the generated function actually receives through convert_inputs and through a Worker; Basic vs Pydantic vs default-selection "
           "differential on typed payloads; json.loads(convert_outputs(v))==v for values of the return annotation. Every payload is executed "
-          "twice on one converter by an actor that mutates its arguments: the second binding must not see the first one's mutations.",
+          "twice on one converter by an actor that mutates its arguments: the second binding must not see the first one's mutations. Declared defaults need not satisfy their annotation (None, (), '').",
   "note": _MODEL + " Pydantic 2 installed; *args/**kwargs only under BasicConverter (documented as unsupported by PydanticConverter)."},
  {"property_id": "C09", "level": "exploration", "design_ref": "DESIGN.md §4 C09",
   "technique": "scenario property-based testing with an in-body concurrency counter and a bounded-latency progress oracle, 3 brokers",
   "text": _WORKER + " Safety oracle: bodies in progress <= tasks_limit at every instant. Progress oracle: no free slot + deliverable message "
           "without a start for longer than a per-broker pickup allowance; all jobs start within a stated bound ('eventually' = within the bound). "
-          "Timed-out bodies may keep running a cleanup; sync-timeout times out sync actors whose threads outlive the timeout; jobs with a ttl.",
+          "Timed-out bodies may keep running a cleanup; sync-timeout times out sync actors whose threads outlive the timeout; jobs with a ttl; "
+          "deferred jobs, one of which a reader of the DELAYED category holds across its due time.",
   "note": _MODEL + _SRV},
  {"property_id": "C11", "level": "exploration", "design_ref": "DESIGN.md §4 C11",
   "technique": "property-based testing over generated router/worker/job configurations against a last-registration-wins routing model, 3 brokers, 1-2 workers",
   "text": "Routers, overrides, inclusion orders, worker subsets and job (name, queue) pairs are generated (names prefix-related on purpose); the "
           "model says which registration, if any, must run each job exactly once; every other message must stay waiting, unchanged and "
           "consumable by a later consumer of its topic; own jobs must finish within a bound; the worker's actor table must equal the "
-          "last-wins union.",
+          "last-wins union. Registrations with or without explicit queue / name (router defaults), routers handed over, included later or through an intermediate router.",
   "note": _MODEL + _SRV + " Open known finding D20b (RabbitMQ topic filtering by reject+requeue can block/ping-pong) is excluded by signature."},
  {"property_id": "C12", "level": "exploration", "design_ref": "DESIGN.md §4 C12",
   "technique": "property-based testing of time-to-live boundaries on a virtual clock (delivery instant = expiry + generated epsilon, exact 0 included), broker and worker level, 3 brokers",
@@ -116,7 +119,7 @@ CHECKS = [
   "technique": "scenario property-based testing of stored results against the model's latest-execution outcome, plus fault-injection differential on store_bucket",
   "text": _WORKER + " Fault sub-check makes the k-th result store_bucket call raise and requires dispositions and final places to equal "
           "the fault-free run of the same generated scenario. The stop sub-check injects the stop signal at loop steps around the result "
-          "store of a dry run (every step in the thorough tier): a job whose disposition was reported must have its result stored. Outcomes include eager responses given by a dependency.",
+          "store of a dry run (every step in the thorough tier): a job whose disposition was reported must have its result stored. Outcomes include eager responses given by a dependency. Job.result is read on the enqueued Job object after every execution, not only at the end.",
   "note": _MODEL + _SRV + " AMQP scenarios use in-memory bucket brokers."},
  {"property_id": "C10", "level": "exploration", "design_ref": "DESIGN.md §4 C10",
   "technique": "scenario property-based testing of messages_limit (bound, self-stop, untouched remainder) and of the run-on-enqueue testing modifier",
@@ -138,7 +141,7 @@ CHECKS = [
           "one; a returned message precedes everything enqueued after its return; nothing matching starves while the consumer polls; "
           "queue lengths cross Redis's fetch window of 10; a spinning broker call (step watchdog) is reported; foreign-run mode puts 10-30 "
           "foreign-topic messages ahead of own ones, with returns and a second consumer eating the run; pause mode pauses and resumes the "
-          "consumer while messages (some prefetched) wait; a third of the cases mix several priority levels in the queue; message timestamps older than their enqueue instant; racing mode lets a second "
+          "consumer while messages (some prefetched) wait; a third of the cases mix several priority levels in the queue; message timestamps older than their enqueue instant; a returned message that carries an already-due schedule; racing mode lets a second "
           "client change the Redis queue between the consumer's read and its transaction; bodies up to 100 kB; bulk enqueues of 60-150.",
   "note": _MODEL + _SRV + " Open known finding D20 (RabbitMQ foreign-topic head-of-line blocking under a small prefetch limit) is excluded by signature."},
  {"property_id": "C16", "level": "exploration", "design_ref": "DESIGN.md §4 C16",
@@ -146,7 +149,7 @@ CHECKS = [
   "text": "Per handle a small state model (usable / refused by category / refused by budget / consumed) predicts for every generated call whether "
           "it raises and which single broker call it may cause (observed at the connection boundary); actor programmes check callback order, "
           "position and value of the lazily placed result store, and that nothing runs after the eager response. dependency-eager: the eager response is given by a dependency of the actor - one "
-          "terminal action, body never entered, nothing reported on top; a second action attempted in a finally block is refused.",
+          "terminal action, body never entered, nothing reported on top; a second action attempted in a finally block is refused. One-shot broker faults: an action whose broker call fails leaves the handle usable and its retry state unchanged.",
   "note": _MODEL + _SRV},
  {"property_id": "C17", "level": "exploration", "design_ref": "DESIGN.md §4 C17",
   "technique": "differential property-based testing: the same lifecycle script with and without generated subscriber sets (signatures, sync/async, raising), signal-log oracle, two connections",
@@ -157,7 +160,7 @@ CHECKS = [
           "signal-completeness probe instruments the functions under the middleware wrapper and decides nesting by dynamic extent over a "
           "task-parent map: every top-level execution of a wrapped operation - by the script, the worker or a consumer's background task - "
           "was announced; redis-background repeats that with one failing Redis round trip; slow-sync-subscribers runs bursts of 60-80 "
-          "messages with a slow sync subscriber and sync actors: results equal the subscriber-free run.",
+          "messages with a slow sync subscriber and sync actors: results equal the subscriber-free run. Raising subscribers draw their exception text (also template-like); a middleware class may be instantiated twice.",
   "note": _MODEL + _SRV},
  {"property_id": "C18", "level": "exploration", "design_ref": "DESIGN.md §4 C18",
   "technique": "property-based testing over generated dependency DAGs (exec-ed providers) against a recursive reference evaluator, with override sequences, failing providers and invalid declarations",
@@ -166,13 +169,13 @@ CHECKS = [
           "failure must follow the retry ladder without running the body; unsupported declarations must raise at declaration time. Several "
           "messages are resolved concurrently through shared Depends objects whose providers suspend; alias nodes are separate Depends "
           "objects over one provider function, overridable on their own; providers may return exception objects; dependency parameters of "
-          "providers may carry default values or be keyword-only.",
+          "providers may carry default values or be keyword-only; an override with a supported acyclic provider must be accepted.",
   "note": _MODEL + " In-memory broker only (dependency resolution is broker-independent)."},
  {"property_id": "C19", "level": "exploration", "design_ref": "DESIGN.md §4 C19",
   "technique": "property-based testing (Hypothesis) of pure functions against arithmetic oracles under a pinned clock",
   "text": "Generated search (tens of thousands of inputs per run, boundary classes constructed on purpose: exact period multiples ±1µs, "
           "now==expiry ±1µs, n above max_exponent, clipped results) against explicit arithmetic oracles. Cannot prove absence; the "
           "functions are small and pure, so boundary-directed generation is the right cost/assurance point. store-redis: buckets written through the Redis bucket broker (fresh, old timestamp, "
-          "re-stored) and read around timestamp+ttl on the server model, under UTC and non-UTC host zones; next: the message may carry an off-grid next_execution_time.",
+          "re-stored) and read around timestamp+ttl on the server model, under UTC and non-UTC host zones; expiry cases carry delay_until / defer_by / next_execution_time / retry state; next: the message may carry an off-grid next_execution_time.",
   "note": _MODEL + " max_exponent ≤ 10^4 by generator bound; cron not exercised (croniter absent)."},
 ]
